@@ -14,6 +14,7 @@ REGISTRY = {
     'C01': ('contracts.propsets', 'C01'),
     'C02': ('contracts.propsets', 'C02'),
     'C03': ('contracts.propsets', 'C03'),
+    'C04': ('contracts.propsets', 'C04'),
     'C07': ('contracts.propsets', 'C07'),
     'C10': ('contracts.propsets', 'C10'),
     'C11': ('contracts.propsets', 'C11'),
